@@ -74,6 +74,8 @@ package bus
 //@ func iface Candidates.GetCandidate
 //@   # (state invariant, assumed: a commission is a percentage)
 //@   ensures result != nil ==> fresh(result) && result.Commission <= 100
+//@   # (state invariant, assumed: a current validator always has its candidate - DeleteCandidate refuses validators, C17)
+//@   ensures [assumed] validatorcandidate: result != nil
 //@   modifies busCache
 //@ func iface Candidates.GetStakes
 //@   ensures forall i int :: 0 <= i && i < len(result) ==> result[i] != nil && fresh(result[i]) && result[i].BipValue != nil && fresh(result[i].BipValue) && result[i].BipValue.val >= 0
